@@ -29,11 +29,11 @@ VERIF = os.path.dirname(os.path.dirname(os.path.abspath(__file__)))
 GENCLI = os.path.join(VERIF, "dsim", "gencli.py")
 
 PROFILE = grammar.profile(
-    p_equal_sort_keys=0.5, mixin_variants=True, p_yaml=0.85, resources=(2, 4), p_two_services=0.6, p_second_file=0.7,
+    p_equal_sort_keys=0.5, mixin_variants=True, p_yaml=0.85, resources=(2, 4), p_two_services=0.8, p_second_file=0.7,
     p_lro=0.6, lro_variants=True, p_raw_op=0.4, paged_variants=False, p_list=0.8, p_sstream=0.3, p_cstream=0.2, p_bidi=0.2,
     p_service_config=1.0, p_routing=0.3, p_foreign_request=0.3, p_reserved_field=0.2, p_keyword_rpc=0.15,
     p_auto_populate=0.3, p_multi_var_path=0.3, sig_variants=True, p_additional_binding=0.5,
-    common_file_names=["resources", "common", "operation", "policy", "<noun>"], p_same_method_two_services=0.5, p_nested_name_ties=0.6,
+    common_file_names=["resources", "common", "operation", "policy", "<noun>"], p_same_method_two_services=0.9, p_nested_name_ties=0.6,
     p_double_star_path=0.2, p_reserved_path_var=0.3, p_required_enum=0.3, p_local_empty=0.2,
     transports=["grpc", "grpc+rest", "grpc+rest", "rest"])
 
